@@ -190,35 +190,48 @@ theorem limits (peerIds : List (List Nat)) (l : Limits) (ops : List COp)
       (Machine.exec mstep (CS.init peerIds l) ops).table = [] :=
   limits_of_Inv _ (invariant peerIds l ops) ht
 
-/-- the clauses of `violations` spelled out as inequalities -/
-theorem limits_explicit (peerIds : List (List Nat)) (l : Limits) (ops : List COp)
-    (ht : (Machine.exec mstep (CS.init peerIds l) ops).limTaint = false) :
-    let cs := Machine.exec mstep (CS.init peerIds l) ops
-    let L := cs.g.lim.limits
-    (∀ m, L.maxPI = some m → cs.sw.pendIn.length ≤ m) ∧
-    (∀ m, L.maxPO = some m → (cs.sw.pendOut.filter (fun pc => !cs.g.exDial.contains pc.id)).length ≤ m) ∧
-    (∀ m, L.maxEI = some m → (cs.sw.est.filter (fun e => !e.out && !cs.g.exEst.contains e.id)).length ≤ m) ∧
-    (∀ m, L.maxEO = some m → (cs.sw.est.filter (fun e => e.out && !cs.g.exEst.contains e.id)).length ≤ m) ∧
-    (∀ m p, L.maxPP = some m → (cs.sw.est.filter (fun e => e.peer == p && !cs.g.exEst.contains e.id)).length ≤ m) ∧
-    (∀ m, L.maxTot = some m → (cs.sw.est.filter (fun e => !cs.g.exEst.contains e.id)).length ≤ m) := by
-  intro cs L
-  obtain ⟨_, x, l⟩ := invariant peerIds l ops
+theorem limits_explicit_of_Inv (cs : CS) (h : Inv cs) (ht : cs.limTaint = false) :
+    (∀ m, cs.g.lim.limits.maxPI = some m → cs.sw.pendIn.length ≤ m) ∧
+    (∀ m, cs.g.lim.limits.maxPO = some m → (cs.sw.pendOut.filter (fun pc => !cs.g.exDial.contains pc.id)).length ≤ m) ∧
+    (∀ m, cs.g.lim.limits.maxEI = some m → (cs.sw.est.filter (fun e => !e.out && !cs.g.exEst.contains e.id)).length ≤ m) ∧
+    (∀ m, cs.g.lim.limits.maxEO = some m → (cs.sw.est.filter (fun e => e.out && !cs.g.exEst.contains e.id)).length ≤ m) ∧
+    (∀ m p, cs.g.lim.limits.maxPP = some m → (cs.sw.est.filter (fun e => e.peer == p && !cs.g.exEst.contains e.id)).length ≤ m) ∧
+    (∀ m, cs.g.lim.limits.maxTot = some m → (cs.sw.est.filter (fun e => !cs.g.exEst.contains e.id)).length ≤ m) := by
+  obtain ⟨_, x, l⟩ := h
   have l := l ht
   refine ⟨?_, ?_, ?_, ?_, ?_, ?_⟩
   · intro m hm; have := l.pi m hm; rw [x.pi] at this; simpa [piIds] using this
-  · intro m hm; have := l.po m hm; rw [x.po] at this
-    simpa [poIds, List.filter_map, Function.comp] using this
+  · intro m hm; have := l.po m hm; rw [x.po, poIds, List.filter_map, List.length_map] at this
+    exact this
   · intro m hm; have := l.ei m hm; rw [x.ei, cnt_map_ids, List.filter_filter] at this
-    simpa [Bool.and_comm] using this
+    rw [show (fun e : Est => !e.out && !cs.g.exEst.contains e.id) = (fun e => !cs.g.exEst.contains e.id && !e.out) from
+      funext fun e => Bool.and_comm _ _]
+    exact this
   · intro m hm; have := l.eo m hm; rw [x.eo, cnt_map_ids, List.filter_filter] at this
-    simpa [Bool.and_comm] using this
+    rw [show (fun e : Est => e.out && !cs.g.exEst.contains e.id) = (fun e => !cs.g.exEst.contains e.id && e.out) from
+      funext fun e => Bool.and_comm _ _]
+    exact this
   · intro m p hm; have := l.pp m p hm; rw [x.pp, cnt_map_ids, List.filter_filter] at this
-    simpa [Bool.and_comm] using this
+    rw [show (fun e : Est => e.peer == p && !cs.g.exEst.contains e.id) = (fun e => !cs.g.exEst.contains e.id && e.peer == p) from
+      funext fun e => Bool.and_comm _ _]
+    exact this
   · intro m hm
     have := l.tot m hm
     rw [x.ei, x.eo, cnt_map_ids, cnt_map_ids] at this
     have h2 := split_count cs.sw.est (fun e => e.out) (fun e => !cs.g.exEst.contains e.id)
     omega
+
+/-- the clauses of `violations` spelled out as inequalities on the Swarm's tables -/
+theorem limits_explicit (peerIds : List (List Nat)) (l : Limits) (ops : List COp)
+    (ht : (Machine.exec mstep (CS.init peerIds l) ops).limTaint = false) :
+    let cs := Machine.exec mstep (CS.init peerIds l) ops
+    (∀ m, cs.g.lim.limits.maxPI = some m → cs.sw.pendIn.length ≤ m) ∧
+    (∀ m, cs.g.lim.limits.maxPO = some m → (cs.sw.pendOut.filter (fun pc => !cs.g.exDial.contains pc.id)).length ≤ m) ∧
+    (∀ m, cs.g.lim.limits.maxEI = some m → (cs.sw.est.filter (fun e => !e.out && !cs.g.exEst.contains e.id)).length ≤ m) ∧
+    (∀ m, cs.g.lim.limits.maxEO = some m → (cs.sw.est.filter (fun e => e.out && !cs.g.exEst.contains e.id)).length ≤ m) ∧
+    (∀ m p, cs.g.lim.limits.maxPP = some m → (cs.sw.est.filter (fun e => e.peer == p && !cs.g.exEst.contains e.id)).length ≤ m) ∧
+    (∀ m, cs.g.lim.limits.maxTot = some m → (cs.sw.est.filter (fun e => !cs.g.exEst.contains e.id)).length ≤ m) :=
+  limits_explicit_of_Inv _ (invariant peerIds l ops) ht
 
 /-- **C52.bookkeeping_exact** — no leak, for every history: the behaviour's five sets are exactly
 the Swarm's tables (pending outgoing: the dials the behaviour was asked to count), so every
